@@ -273,27 +273,76 @@ class Gen(object):
           continue
         if k == "nx_flow_mod_table_id":
           continue
-        return {"path": step, "op": "set", "v": trial["f"][n]}
+        return {"path": step, "op": "set", "v": trial["f"][n], "when": "post", "form": ""}
       if t == "str":
-        return {"path": step, "op": "set", "v": self.text(d["w"])}
+        return {"path": step, "op": "set", "v": self.text(d["w"]), "when": "post", "form": ""}
       if t == "rest":
         if k in ("packet_in", "nxt_packet_in", "packet_out", "a_vendor", "a_generic", "qp_generic"):
           continue
-        return {"path": step, "op": "set", "v": self.rest()}
+        return {"path": step, "op": "set", "v": self.rest(), "when": "post", "form": ""}
       fam = d["k"]
       if fam == "nxm":
         have = set((e["f"]["vendor"][0] * 256 + e["f"]["vendor"][1], e["f"]["field"][0]) for e in sv["f"][n])
-        return {"path": step, "op": "append", "v": self.nxm(have)}
+        return {"path": step, "op": "append", "v": self.nxm(have), "when": "post", "form": ""}
       if fam == "fms":
-        return {"path": step, "op": "append", "v": self.fms()}
+        return {"path": step, "op": "append", "v": self.fms(), "when": "post", "form": ""}
       if k in ("nxa_bundle", "nxa_bundle_load"):
         continue
-      return {"path": step, "op": "append", "v": self.value(r.choice(FAMILY[fam]), 1)}
+      return {"path": step, "op": "append", "v": self.value(r.choice(FAMILY[fam]), 1), "when": "post", "form": ""}
     return None
+
+
+def match_history(gen, sv):
+  """a construction history on the match of sv (bare match, or a top-level `match` field): some fields are
+  overwritten (other values, prefixes, None, or wildcards = OFPFW_ALL) and then every touched field is written
+  back, so the final value is the one sv already has.  Returns the list of setf modifications."""
+  r = gen.rnd
+  if sv["k"] == "match":
+    path, m = [], sv
+  elif isinstance(sv["f"], dict) and isinstance(sv["f"].get("match"), dict) and sv["f"]["match"].get("k") == "match":
+    path, m = [{"f": "match", "i": 0}], sv["f"]["match"]
+  else:
+    return []
+  f = m["f"]
+  mods, touched = [], []
+
+  def nw(n, a, bits, form):
+    return {"path": path, "op": "setf", "v": {n: a if bits else [], n + "_bits": [bits]}, "when": "pre", "form": form}
+  if r.random() < 0.15:
+    mods.append({"path": path, "op": "setf", "when": "pre", "form": "wildcards",
+                 "v": dict({n: [] for n in MATCH_W}, nw_src_bits=[0], nw_dst_bits=[0])})
+    touched = list(MATCH_W)
+  for _ in range(r.choice([1, 1, 2, 3])):
+    n = r.choice(["nw_src", "nw_dst", "nw_src", "nw_dst", "in_port", "dl_type", "nw_proto", "tp_dst", "dl_vlan"])
+    if n in ("nw_src", "nw_dst"):
+      bits = r.choice([0, 1, 8, 24, 31, 32, r.randint(1, 31)])
+      a = int.from_bytes(bytes(gen.bytes_(4)), "big") & ((0xffffffff << (32 - bits)) & 0xffffffff) if bits else 0
+      form = r.choice(["tuple", "cidr", "method"] + (["attr"] if bits in (0, 32) else []))
+      if bits == 0 and form in ("tuple", "cidr"):
+        form = "attr"
+      mods.append(nw(n, list(a.to_bytes(4, "big")), bits, form))
+    else:
+      mods.append({"path": path, "op": "setf", "v": {n: r.choice([[], gen.bytes_(MATCH_W[n])])}, "when": "pre",
+                   "form": "attr"})
+    if n not in touched:
+      touched.append(n)
+  r.shuffle(touched)
+  for n in touched:                      # write the final values back (last write wins)
+    if n in ("nw_src", "nw_dst"):
+      bits = f[n + "_bits"][0]
+      form = r.choice(["tuple", "method"] + (["attr"] if bits in (0, 32) else ["cidr"]))
+      if bits == 0 and form == "tuple":
+        form = "method"
+      mods.append(nw(n, f[n], bits, form))
+    else:
+      mods.append({"path": path, "op": "setf", "v": {n: f[n]}, "when": "pre", "form": "attr"})
+  return mods
 
 
 def apply_mod(sv, m):
   """the same change on the abstract value (top-level paths only)"""
+  if m["op"] == "setf":
+    return                               # histories end in the value the object already has
   n = m["path"][0]["f"]
   if m["op"] == "set":
     sv["f"][n] = m["v"]
